@@ -9,6 +9,8 @@
                    Datum::quotation uses the span it is given for the head
 Not decided: span arithmetic, containment, re-parsing of the covered text.
 """
+import re
+
 from .. import common, facts as F, sim
 from ..sim import Adt, Opq, Ref, UNK
 
@@ -37,12 +39,23 @@ def run(ctx):
         r.anchor_missing("IoRead::{position, peek}")
         return
 
+    la = common.fields_of_type(lexpr, "parse::read::IoRead", lambda ty: ty == "std::option::Option<u8>")
+    if len(la) != 1:
+        r.anchor_missing("the Option<u8> lookahead field of IoRead (found %s)" % la)
+        return
+    LA = la[0]
+    accessors = set()
+
     def mk_hook(order):
         def hook(S, fn, bb, t, args, path):
             nm = F.callee_names(t)
             p = t["callee"].get("path", "")
-            if p.endswith("LineColIterator::<I>::line") or p.endswith("LineColIterator::<I>::col"):
+            tys = t.get("arg_tys", [])
+            # the line / column accessors of the iterator: `fn(&LineColIterator<I>) -> usize`
+            if "LineColIterator::<I>::" in p and len(tys) == 1 and tys[0].startswith("&parse::iter::LineColIterator<") \
+                    and t.get("dest_ty", "usize") == "usize":
                 had_next = any(e[0] == "call" and "std::iter::Iterator::next" in e[1] for e in path.events)
+                accessors.add(p.rsplit("::", 1)[1])
                 tok = Opq("iter.%s@%s" % (p.rsplit("::", 1)[1], "after-next" if had_next else "before-next"))
                 return ("value", tok)
             if "std::iter::Iterator::next" in nm:
@@ -52,7 +65,7 @@ def run(ctx):
 
     def opaque_with(ch):
         def opaque(o):
-            if o.path and o.path[-1] == "ch":
+            if o.path and o.path[-1] == LA:
                 return ch
             return None
         return opaque
@@ -65,10 +78,26 @@ def run(ctx):
     # position() without a pending byte
     S = sim.Sim([lexpr], hooks={"call": mk_hook(None), "opaque": opaque_with(Adt(OPT, 0, []))})
     rets = {fields(p.ret) or repr(p.ret) for p in S.run(pos) if p.end == "return"}
-    if rets == {("<iter.line@before-next>", "<iter.col@before-next>")}:
-        r.ok("position() without lookahead = (iter.line(), iter.col())", pos)
+
+    def line_col_before(pair):
+        """(line accessor before next, column accessor before next): two different accessors of the iterator,
+        the first named line*, the second col* when they carry those names."""
+        if not (isinstance(pair, tuple) and len(pair) == 2):
+            return False
+        m = [re.match(r"<iter\.(\w+)@before-next>$", x) for x in pair]
+        if not all(m) or m[0].group(1) == m[1].group(1):
+            return False
+        a, b = m[0].group(1), m[1].group(1)
+        if a.startswith("col") or b.startswith("line"):
+            return False
+        return True
+
+    if len(rets) == 1 and line_col_before(next(iter(rets))):
+        base = next(iter(rets))
+        r.ok("position() without lookahead = the iterator's (line, column) accessors %s" % (base,), pos)
     else:
         r.violation(pos.path, "position-no-lookahead", "IoRead::position without a pending byte returns %s" % sorted(rets, key=repr), pos.loc())
+        return
     # position() with a pending byte must come from saved state
     S = sim.Sim([lexpr], hooks={"call": mk_hook(None), "opaque": opaque_with(Adt(OPT, 1, [65]))})
     ps = [p for p in S.run(pos) if p.end == "return"]
@@ -97,7 +126,7 @@ def run(ctx):
         for e in p.events:
             if e[0] == "store" and e[1] == field:
                 stores.append(fields(e[2]))
-    if stores and all(s == ("<iter.line@before-next>", "<iter.col@before-next>") for s in stores):
+    if stores and all(s == base for s in stores):
         r.ok("peek() saves (iter.line(), iter.col()) taken before iter.next() into %r" % field, peek)
     else:
         r.violation(peek.path, "peek-saves-position",
@@ -108,9 +137,12 @@ def run(ctx):
         r.anchor_missing("SliceRead::peek")
     else:
         moved = False
+        idx_fields = common.fields_of_type(lexpr, "parse::read::SliceRead", lambda ty: ty == "usize")
+        if not idx_fields:
+            r.anchor_missing("the usize index field of SliceRead")
         for b in sp.blocks:
             for s in b["stmts"]:
-                if s["k"] == "assign" and any(isinstance(e, dict) and e.get("n") == "index" for e in s["place"]["p"]):
+                if s["k"] == "assign" and any(isinstance(e, dict) and e.get("n") in idx_fields for e in s["place"]["p"]):
                     moved = True
         if moved:
             r.violation(sp.path, "slice-peek-advances", "SliceRead::peek writes self.index: position() would skip the peeked byte", sp.loc())
@@ -119,7 +151,7 @@ def run(ctx):
     # byte_offset is the sibling that already compensated
     bo = lexpr.fn(IO + "byte_offset")
     if bo is not None:
-        reads_ch = any(any(isinstance(e, dict) and e.get("n") == "ch" for e in (s["rv"].get("pl", {}) or {}).get("p", []))
+        reads_ch = any(any(isinstance(e, dict) and e.get("n") == LA for e in (s["rv"].get("pl", {}) or {}).get("p", []))
                        for b in bo.blocks for s in b["stmts"] if s["k"] == "assign" and s["rv"]["k"] in ("discr", "use", "ref"))
         if reads_ch:
             r.ok("IoRead::byte_offset also compensates for the pending byte", bo)
